@@ -47,15 +47,15 @@ for x in M:
     open(path, 'w').write(src.replace(x['old'], x['new']))
     try:
         feat = ' && cargo test -q --offline -p eyeball --features async-lock' if x['file'].startswith('eyeball/') else ''
-        r = sh(f'cargo test -q --offline --workspace{feat}', cwd=WT)
+        r = sh(f'cargo test -q --offline --workspace{feat}', cwd=WT, timeout=300)
         if r.returncode != 0:
-            kind = 'does-not-compile' if 'error[' in r.stderr or 'error:' in r.stderr and 'test failed' not in r.stderr else 'killed-by-suite'
+            kind = 'killed-by-suite (hang)' if r.returncode == 124 else 'does-not-compile' if 'error[' in r.stderr or 'error:' in r.stderr and 'test failed' not in r.stderr else 'killed-by-suite'
             rows.append((x['id'], kind, '', x['note'])); continue
         if not x['props']:
             rows.append((x['id'], 'not-judged', 'expected survivor / equivalent', x['note'])); continue
         det = []
         for p in x['props']:
-            r = sh(f'./check {p} --tier quick --no-evidence --out {MV}/out', cwd=MV)
+            r = sh(f'./check {p} --tier quick --no-evidence --out {MV}/out', cwd=MV, timeout=1500)
             line = next((l for l in r.stdout.splitlines() if l.startswith('minimised')), '')
             det.append((p, r.returncode, line[:160]))
         status = 'DETECTED' if any(c == 1 for _, c, _ in det) else ('HARNESS-ERROR' if any(c == 2 for _, c, _ in det) else 'SURVIVED')
@@ -68,5 +68,5 @@ with open('/verif/evidence/mutants.txt' if not only else '/tmp/mutants-partial.t
     f.write("# id | status | what the quick tier of the expected properties' checks reported | mutant\n")
     for r in rows: f.write(' | '.join(r) + '\n')
     n = lambda s: sum(1 for r in rows if r[1] == s)
-    f.write(f"# judged: {n('DETECTED')+n('SURVIVED')}  detected: {n('DETECTED')}  survived: {n('SURVIVED')}  killed by the suite: {n('killed-by-suite')}  not compiling: {n('does-not-compile')}  not judged (equivalent): {n('not-judged')}\n")
+    f.write(f"# judged: {n('DETECTED')+n('SURVIVED')}  detected: {n('DETECTED')}  survived: {n('SURVIVED')}  killed by the suite: {sum(1 for r in rows if r[1].startswith('killed-by-suite'))}  not compiling: {n('does-not-compile')}  not judged (equivalent): {n('not-judged')}\n")
 sh(f'git -C /repo worktree remove --force {WT}'); shutil.rmtree(MV, ignore_errors=True)
